@@ -140,15 +140,21 @@ class Impl:
         self.kind = kind
         self.cls = LazyDI if kind == 'lazy' else DI
         self.containers: list = []
+        self.shared_defs: dict = {}
 
     def new_container(self, defs: dict):
         from mc.props import c19_universe as U
         if self.kind == 'lazy':
-            d = {}
-            for s, (how, f) in defs.items():
-                cls = U.SYMBOLS[s]   # registered under module + qualified name (nested classes: 'OuterA.Item')
-                d[f'{cls.__module__}.{cls.__qualname__}'] = f'{U.PATH}.{f}' if how == 'path' else U.FACTORIES[f]
-            self.containers.append(self.cls.instantiate(d))
+            # a program keeps one definitions table per configuration and instantiates every container of that configuration
+            # from the same dict object: containers built from equal definitions share the argument, never their state
+            key = json.dumps(sorted((s, list(v)) for s, v in defs.items()))
+            if key not in self.shared_defs:
+                d = {}
+                for s, (how, f) in defs.items():
+                    cls = U.SYMBOLS[s]   # registered under module + qualified name (nested classes: 'OuterA.Item')
+                    d[f'{cls.__module__}.{cls.__qualname__}'] = f'{U.PATH}.{f}' if how == 'path' else U.FACTORIES[f]
+                self.shared_defs[key] = (d, dict(d))
+            self.containers.append(self.cls.instantiate(self.shared_defs[key][0]))
         else:
             di = self.cls()
             for s, (how, f) in defs.items():
@@ -199,6 +205,7 @@ INVOKES = [
     ('mkNA', (1, 'argA')), ('mkNA', (1,)),
 ]
 NEW_DEFS = [
+    {'A': ('path', 'mkA1')},   # (equal to the second initial registration: a second container from the same table)
     {'A': ('path', 'mkA2')},
     {'B': ('path', 'mkB')},
     {'A': ('call', 'mkA1'), 'B': ('path', 'mkB')},
@@ -341,6 +348,9 @@ def apply_op(impl: Impl, model: Model, op, check: bool):
     except Exception as e:  # noqa
         i_obs = ('exc', type(e).__name__)
 
+    for d, pristine in impl.shared_defs.values():
+        if d != pristine:
+            raise Divergence(['definitions-argument-mutated'] + [name], f'{op}: the dict handed to instantiate() was changed by the container: {sorted(map(str, d))} (was {sorted(map(str, pristine))})')
     if not check:
         return
     opsig = [name] + [json.dumps(x) if not isinstance(x, str) else x for x in op[1:]][(1 if name not in ('new', 'combine') else 0):]
